@@ -146,7 +146,8 @@ def arith_observe(case):
 
 
 def _judge(trace_spec, cases, wd, ctx, name, chunk, jobs=6, constants=None):
-    """Run TLC on batches of JSON cases; returns the concatenated `bad` lists."""
+    """Run TLC on batches of JSON cases; returns the concatenated `bad` lists.  `ctx`: None or a list that
+    receives (run name, TLCResult) for the caller to account."""
     cfg = tlc.write_cfg(os.path.join(wd, name + '.cfg'), spec='TSpec', constants=constants or {}, deadlock=False, postcondition='Post')
 
     def one(k):
@@ -164,7 +165,7 @@ def _judge(trace_spec, cases, wd, ctx, name, chunk, jobs=6, constants=None):
     with ThreadPoolExecutor(max_workers=jobs) as pool:
         for k, res, bad in pool.map(one, range(len(cases))):
             if ctx is not None:
-                ctx.tlc(res, '%s/batch%d' % (name, k))
+                ctx.append(('%s/batch%d' % (name, k), res))     # accounted by the caller, in a fixed order
             out += bad
     return out
 
@@ -328,6 +329,8 @@ def run_heap_case(case, tid=1):
     for st in case['steps']:
         op = st['op']
         P = rec.pool
+        if not 1 <= st['i'] <= len(P) or (st.get('rkind') == 'ds' and not 1 <= st['j'] <= len(P)):
+            break           # an earlier step was not applicable to the real datasets: the chain ends here
         try:
             with np.errstate(all='ignore'):
                 if op in ARITH_OPS:
@@ -361,21 +364,25 @@ def run_heap_case(case, tid=1):
                 elif op in ('sliceall', 'slicesub'):
                     src = P[st['i'] - 1]
                     nd = np.ndim(src.value)
-                    if nd == 0:
-                        continue
+                    if nd == 0 or (op == 'slicesub' and not 1 <= st['dim'] <= nd):
+                        break
                     sl = [slice(None)] * nd
                     if op == 'slicesub':
                         sl[st['dim'] - 1] = slice(0, 1)
                     P.append(src[tuple(sl) if nd > 1 else sl[0]])
                 elif op == 'mutate':
+                    if st['rkind'] == 'bins' and not 1 <= st['dim'] <= len(P[st['i'] - 1].bins):
+                        continue
                     arr = _field(P[st['i'] - 1], st['rkind'], st['dim'])
                     if not isinstance(arr, np.ndarray):
-                        continue
+                        continue    # a 0-d result holds numpy scalars: nothing to write into
                     st = dict(st, buf=rec.buf_id(arr))
                     data = np.ma.getdata(arr)
                     data[...] = np.where(data < 0, data - 1, data + 1)
                 elif op == 'rebind':
                     ds = P[st['i'] - 1]
+                    if not 1 <= st['dim'] <= len(ds.bins):
+                        continue
                     key = list(ds.bins)[st['dim'] - 1]
                     ds.bins[key] = np.asarray(ds.bins[key], dtype=float) + 1000.0
                 else:
@@ -383,8 +390,11 @@ def run_heap_case(case, tid=1):
         except tlc.MachineryError:
             raise
         except Exception as ex:  # pylint: disable=broad-except
-            return rec, 'step %d (%s) raised %s: %s' % (rec.k + 1, op, type(ex).__name__, ex)
-        rec.observe(st)
+            return rec, (op, 'step %d (%s) raised %s: %s' % (rec.k + 1, op, type(ex).__name__, ex))
+        nbuf_before = len(rec.bufs)
+        full = rec.observe(st)
+        if op not in ('mutate', 'rebind') and (full['mod'] or any(b <= nbuf_before for b, _t in full['ct'])):
+            break       # an operation changed an existing dataset (TLC reports it): what follows is outside the quantifier
     return rec, None
 
 
@@ -430,7 +440,7 @@ def replay_case(case):
         return not hit, 'DatasetArithTrace.tla clauses violated: %s; cells %s' % (sorted(clauses) or 'none', obs['cells'])
     rec, problem = run_heap_case(case)
     if problem:
-        return False, problem
+        return False, problem[1]
     verdict = judge_heap([rec], wd)
     averdict = judge_arith([(k, obs) for k, obs, _op, _rk in rec.arith], wd) if rec.arith else {}
     found = {(k, cl) for (_t, k), cls in verdict.items() for cl in cls} | {(k, cl) for k, cls in averdict.items() for cl in cls}
@@ -715,9 +725,9 @@ def run_c08(ctx):
             raise tlc.MachineryError('DatasetArith.tla %s: %s\n%s' % (name, res.violation, res.out[-1500:]))
         tlc.check_coverage(res, ['Eval'], 'DatasetArith/' + name)
         dump = os.path.join(wd, 'arith_' + name)
-        for st in tlc.read_dump(dump):
-            if st['pc'] != 'done':
-                continue
+        states = [st for st in tlc.read_dump(dump) if st['pc'] == 'done']
+        states.sort(key=lambda st: (st['op'], st['rk'], to_tla(st['left']), to_tla(st['right'])))   # dump order depends on TLC's workers
+        for st in states:
             n_arith_states += 1
             exp = _expected_cells(st)
             for case in _arith_cases_of_state(st, rng):
@@ -736,11 +746,13 @@ def run_c08(ctx):
     if not res_heap.ok:
         raise tlc.MachineryError('DatasetHeap.tla: %s\n%s' % (res_heap.violation, res_heap.out[-2500:]))
     # vacuity guard for the pool model: every operation must occur in the dumped histories (ops_seen below)
+    m = re.search(r'The number of states generated: (\d+)', res_sim.out)     # simulation mode prints its own statistics
+    if m and not res_sim.generated:
+        res_sim.generated = int(m.group(1))
     ctx.tlc(res_sim, 'DatasetHeap/simulation')
     if res_sim.violation is not None:
         raise tlc.MachineryError('DatasetHeap.tla simulation: %s\n%s' % (res_sim.violation, res_sim.out[-2500:]))
     _lap('heap witnesses')
-    seen = set()
     chains = []
     with open(os.path.join(wd, 'heap.dump')) as f:
         setups, hists = _behaviours(f.read())
@@ -756,10 +768,7 @@ def run_c08(ctx):
             pairs.append((s2[-1], h2[-1]))
     ops_seen = set()
     projected = set()
-    for s_txt, h_txt in pairs:
-        if (s_txt, h_txt) in seen:
-            continue
-        seen.add((s_txt, h_txt))
+    for s_txt, h_txt in sorted(set(pairs)):         # dump order depends on TLC's workers: fix the order here
         hist = parse_value(h_txt)
         if not hist:
             continue
@@ -790,7 +799,7 @@ def run_c08(ctx):
         rec, problem = run_heap_case(case, tid)
         rec.case = case
         if problem:
-            ctx.violation('C08/raised/%s' % rec_last_op(case, rec), problem, case, module='conf_dataset')
+            ctx.violation('C08/raised/%s' % problem[0], problem[1], case, module='conf_dataset')
         recorders.append(rec)
         for k, aobs, op, rk in rec.arith:
             cid = len(abatch) + 1
@@ -802,14 +811,17 @@ def run_c08(ctx):
             ctx.sample(dict(chain=case, recorded_steps=len(rec.steps)))
 
     _lap('heap chains executed')
+    hruns, aruns = [], []
     with ThreadPoolExecutor(max_workers=2) as tp:
-        f_h = tp.submit(judge_heap, recorders, wd, ctx)
-        f_a = tp.submit(judge_arith, abatch, wd, ctx)
+        f_h = tp.submit(judge_heap, recorders, wd, hruns)
+        f_a = tp.submit(judge_arith, abatch, wd, aruns)
         hverdict = f_h.result()
         averdict = f_a.result()
+    for name, res in hruns + aruns:
+        ctx.tlc(res, name)
     _lap('heap + arith judged')
     by_tid = {rec.tid: rec for rec in recorders}
-    for (tid, k), clauses in sorted(hverdict.items()):
+    for (tid, k), clauses in sorted(hverdict.items(), key=lambda kv: (kv[0][1], kv[0][0])):      # shortest chains first
         rec = by_tid[tid]
         step = rec.steps[k - 1]
         for cl in sorted(clauses):
@@ -831,18 +843,9 @@ def run_c08(ctx):
     ctx.cov['explanation'] = ('exhaustive for the TLC configurations in tlc_runs: %d DatasetArith states (x3 shape variants = %d cases), '
                               '%d of the %d distinct operation sequences of the DatasetHeap state graph and simulations; beyond them %d random '
                               'operations, %d random chains, %d chain steps re-judged numerically'
-                              % (n_arith_states, n_arith_dump, n_tlc_chains, n_sequences, len(abatch) - n_arith_dump, len(chains) - n_tlc_chains,
+                              % (n_arith_states, n_arith_dump, n_tlc_chains, n_sequences,
+                                 len(abatch) - n_arith_dump - sum(len(r.arith) for r in recorders), len(chains) - n_tlc_chains,
                                  sum(len(r.arith) for r in recorders)))
-
-
-def rec_last_op(case, rec):
-    k = len(rec.steps) - 1          # steps recorded after init = steps executed successfully
-    done = 0
-    for st in case['steps']:
-        if done == k:
-            return st['op']
-        done += 1
-    return 'init'
 
 
 def _case_prefix(rec, k):
